@@ -1,6 +1,10 @@
 mod cursor;
 mod dirty_lines;
+#[cfg(feature = "verif")]
+mod verif;
 pub use self::cursor::Cursor;
+#[cfg(feature = "verif")]
+pub use self::verif::{VerifSavedCtx, VerifState};
 use self::dirty_lines::DirtyLines;
 use crate::buffer::{Buffer, EraseMode};
 use crate::cell::Cell;
